@@ -902,6 +902,8 @@ Lemma cfg_ok_parts c :
 Proof.
   unfold cfg_ok. intro H.
   apply andb_prop in H. destruct H as [H H4].
+  apply andb_prop in H. destruct H as [H _].
+  apply andb_prop in H. destruct H as [H _].
   apply andb_prop in H. destruct H as [H H3].
   apply andb_prop in H. destruct H as [H1 H2].
   repeat split; try assumption.
@@ -916,6 +918,16 @@ Proof. intros H D. apply (cfg_ok_parts c H); exact D. Qed.
 
 Lemma cfg_ok_strict c : cfg_ok c = true -> strict_reply c = true.
 Proof. intro H. apply (cfg_ok_parts c H). Qed.
+
+(* both _sendIq functions register the request before handing it down *)
+Lemma cfg_ok_reg_first c : cfg_ok c = true -> reg_first c = true /\ reg_first_iface c = true.
+Proof.
+  unfold cfg_ok. intro H.
+  apply andb_prop in H. destruct H as [H _].
+  apply andb_prop in H. destruct H as [H H2].
+  apply andb_prop in H. destruct H as [_ H1].
+  split; assumption.
+Qed.
 
 (* THE correlation theorem, application level, WITH retries issued from inside callbacks.
    For every routing table in which kind k is transported faithfully and both registries remove
@@ -1291,7 +1303,7 @@ Definition route_repaired (k : akind) : route :=
   end.
 Definition lib_route_repaired (lk : lkind) : layer * (bool * bool) :=
   match lk with LKPing => (LIq, (true, true)) | _ => lib_route_unrepaired lk end.
-Definition cfg_repaired : cfg := mkcfg route_repaired lib_route_repaired true true false false.
+Definition cfg_repaired : cfg := mkcfg route_repaired lib_route_repaired true true false false true true.
 
 Example cfg_repaired_ok : cfg_ok cfg_repaired = true.
 Proof. vm_compute. reflexivity. Qed.
@@ -1352,7 +1364,7 @@ Proof. split; (split; [cbn; auto|vm_compute; discriminate]). Qed.
 (* a get/set stanza carrying a pending id silently cancels the request (any kind) *)
 Lemma nonreply_consumes_refuted :
   refutes cfg_unrepaired KLastSeen [Deliver 1 TGet ShSPing; Deliver 1 TResult ShPlain] /\
-  refutes (mkcfg route_repaired lib_route_repaired false true false false) KLastSeen
+  refutes (mkcfg route_repaired lib_route_repaired false true false false true true) KLastSeen
           [Deliver 1 TSet ShPlain; Deliver 1 TResult ShPlain].
 Proof. split; (split; [cbn; intuition discriminate|vm_compute; discriminate]). Qed.
 
@@ -1370,8 +1382,8 @@ Definition refutes_retry (c : cfg) (k : akind) (rt : retry) (post : list op) : P
   app_cbs 1 (events c init ([] ++ AppRequest k true true rt :: post)) <>
   expected_seq 1 true true (mkreq 1 (OApp k)) (Some rt) post.
 
-Definition cfg_late_proto : cfg := mkcfg route_repaired lib_route_repaired true true true false.
-Definition cfg_late_iface : cfg := mkcfg route_repaired lib_route_repaired true true false true.
+Definition cfg_late_proto : cfg := mkcfg route_repaired lib_route_repaired true true true false true true.
+Definition cfg_late_iface : cfg := mkcfg route_repaired lib_route_repaired true true false true true true.
 
 Lemma delete_after_dispatch_refuted :
   (* retry on error, then the result for the retry is lost *)
